@@ -505,6 +505,7 @@ func (r *Cache) Get(ns, key uint64, setFunc func() (size int, value Value)) *Han
 					atomic.AddInt64(&r.statSize, int64(n.size))
 				}
 				n.mu.Unlock()
+				verifYield(1)
 				if r.cacher != nil {
 					r.cacher.Promote(n)
 				}
